@@ -127,6 +127,12 @@ example :
     getFeatures 0 (-99) sf 2 [0, 0, 1, 0, 0, 1, 0, 0] [5, 3, 7] [2, 1, 0] =
       some [[0, 30, 0], [-99, 0, -99], [11, 0, 10]] := by decide
 example : ColsOK [[4, 2, -1], [-1, 0, -1]] := by unfold ColsOK; decide
+-- two spikes of one template (the column row REPEATS) and a probe-wide request of 13 channels that leaves the stored
+-- channel 5 out: it is discarded in BOTH rows (corpus/C06/sc_repeated_column_rows_probe_wide_request.json)
+example : fromSparse (0 : Int) [[1, 2], [3, 4]] [[5, 10], [5, 10]] [0, 10, 20, 30, 40, 50, 60, 70, 80, 90, 100, 110, 120] =
+    some [[0, 2, 0, 0, 0, 0, 0, 0, 0, 0, 0, 0, 0], [0, 4, 0, 0, 0, 0, 0, 0, 0, 0, 0, 0, 0]] := by decide +kernel
+example : ColsOK [[5, 10], [5, 10]] ∧ [0, 10, 20, 30, 40, 50, 60, 70, 80, 90, 100, 110, 120].Nodup := by
+  unfold ColsOK; decide
 -- without a row table a repeated request is served at both positions
 example :
     let sf : Sparse Int := ⟨[[10, 11], [20, 21], [30, 31]], some [[0, 2], [1, -1]], none⟩
